@@ -238,7 +238,7 @@ theorem step_slotsOK (c : BCfg) (s s' : St) (l : Label) (h : step c s l = some s
         have hc := stepOp_count _ _ _ _ hs
         have hpne := (stepOp_openNE _ _ _ _ hacc hs).2 p rfl
         simp only [Option.toList_some, List.length_cons, List.length_nil] at hc
-        have hr := raise_nUnfinished c (afterTake c s allow acc' slot) p hpne
+        have hr := fun st => raise_nUnfinished c st p hpne
         unfold SlotsOK at *
         simp only [raise_slots, afterTake_slots, openCount, raise_loop, afterTake_loop, slotsAfter, hr, afterTake_batches]
         rw [hoc] at hi
